@@ -213,11 +213,25 @@ class Runner:
         thms = re.findall(r"^\s*Theorem\s+([A-Za-z0-9_']+)", open(os.path.join(ck.COQ, cfg["prop_file"])).read(), re.M)
         axioms = sorted(set(a for a in assumptions.values() if a and not a.startswith("Closed")))
         n_ob = len(stmts)
+        if self.proofs_ok:
+            n_dis = n_ob
+        else:
+            # count the statements of the files that still compile (their .vo is newer than the source)
+            # (`make -q X.vo` answers whether X.vo is up to date with everything it depends on)
+            n_dis = 0
+            uptodate = {}
+            for st in stmts:
+                f = st.split(":")[0]
+                if f not in uptodate:
+                    rcq, _ = ck.sh(["make", "-q", f[:-2] + ".vo"], cwd=ck.COQ)
+                    uptodate[f] = rcq == 0
+                if uptodate[f]:
+                    n_dis += 1
         ev = {
             "property_id": prop, "tier": self.tier, "seed": self.seed, "level": "proof",
             "coverage": {
                 "obligations": n_ob,
-                "discharged": n_ob if self.proofs_ok else 0,
+                "discharged": n_dis,
                 "checker_cmd": "cd coq && coq_makefile -f _CoqProject -o Makefile && make -j16 %s  (Coq 8.16.1, full .vo build)" % (cfg["prop_file"][:-2] + ".vo"),
                 "trusted_base": cfg.get("trusted_base", []) + [
                     "Coq 8.16.1 kernel, vm_compute (no native_compute)",
